@@ -174,7 +174,7 @@ def exec_op(world, op, guard_seconds=1.5):
     prev = ACTIVE[0]
     ACTIVE[0] = world
     try:
-        with OpGuard(guard_seconds, getattr(world, "rlimit", None)):
+        with OpGuard(guard_seconds + 0.02 * len(world.nodes), getattr(world, "rlimit", None)):
             if kind == "parent":
                 world.nodes[op["n"]].parent = materialise_item(world, op["p"])
             elif kind == "children":
